@@ -294,7 +294,8 @@ class Array(list[T], BaseArray):
 
 
 def _is_readable_type(value: object) -> bool:
-    return hasattr(value, "read")
+    # (an integer is never a stream: asking a pointer, which is one, for an attribute would dereference it)
+    return not isinstance(value, int) and hasattr(value, "read")
 
 
 def _is_buffer_type(value: object) -> bool:
